@@ -1935,6 +1935,10 @@ func (x *Exec) builtin(st *State, fr *Frame, ce *ast.CallExpr, name string, k fu
 			k(st, []Term{r})
 			return
 		}
+		if si := x.d.sorts[v.Sort]; si != nil && si.Kind == "list" && name == "len" {
+			// the length of a slice is an int
+			st.assume(tApp("Bool", "<=", tApp("Int", "len_"+v.Sort, v), Term{S: "9223372036854775807", Sort: "Int"}))
+		}
 		if si := x.d.sorts[v.Sort]; si != nil && si.Kind == "list" {
 			if name == "cap" {
 				// capacity is not modelled by mathematical sequences: an unknown value >= len
